@@ -1,3 +1,4 @@
+mod configcheck;
 mod indep;
 mod modea;
 mod model;
@@ -19,6 +20,8 @@ macro_rules! dispatch {
         match $id {
             "C01" => runner::$f::<props::c01::C01>($($args),*),
             "C02" => runner::$f::<props::c02::C02>($($args),*),
+            "C14" => runner::$f::<props::c14::C14>($($args),*),
+            "C17" => runner::$f::<props::c17::C17>($($args),*),
             other => {
                 eprintln!("unknown property {other}");
                 2
